@@ -198,6 +198,30 @@ let cmd_subdiv t =
       (String.concat " ; " (List.map (event_str f st ref_) evs)) in
   Printf.printf "subdiv %s %s\n" id (outcome_str r show)
 
+(* planar: the verified planarity certificate (Cert13) on the model's own run of subdivide:
+   "1" accepted, "0" rejected, "-" the sweep did not return *)
+let cmd_planar t =
+  let id = next t in
+  let prec = next t in
+  let f = fmt_of_string prec in
+  let cfg = cfg_of_string (next t) in
+  let budget = next_int t in
+  let op = op_of_string (next t) in
+  let a = BoolOp.as_slice f.num (read_operand f t) in
+  let b = BoolOp.as_slice f.num (read_operand f t) in
+  let fl = FillQueue.fill_queue f.num a b op in
+  let r = Subdivide.subdivide f.num cfg (nat_of_int budget) fl op in
+  let verdict =
+    match r with
+    | Outcome.Ok ((st, evs), _) ->
+      let ok = (match prec with
+          | "64" -> Cert13.planar_64 (Obj.magic st) evs
+          | "32" -> Cert13.planar_32 (Obj.magic st) evs
+          | _ -> Cert13.planar_q (Obj.magic st) evs) in
+      b01 ok
+    | _ -> "-" in
+  Printf.printf "planar %s %s\n" id verdict
+
 (* ---------- splay ---------- *)
 let zcmp (a : int) (b : int) : comparison = if a < b then Lt else if a > b then Gt else Eq
 
@@ -456,6 +480,7 @@ let () =
          | "bool" -> cmd_bool t
          | "fillq" -> cmd_fillq t
          | "subdiv" -> cmd_subdiv t
+         | "planar" -> cmd_planar t
          | "splay" -> cmd_splay t
          | "scene" -> cmd_scene t
          | "orders" -> cmd_orders t
